@@ -59,7 +59,7 @@ package deps
 //@   modifies ghost.itpos
 //@   ensures itpos == old(itpos) + 1
 //@ trusted func (it *badger.Iterator) ValidForPrefix(prefix []byte) (ok bool)
-//@   ensures sound: imp(ok, 0 <= itpos && itpos < itn)
+//@   ensures sound: imp(ok, 0 <= itpos && itpos < itn && skLen(itpos) >= len(prefix))
 //@   ensures fwd: imp(!itrev && itseek == bytes(prefix), ok == (0 <= itpos && itpos < itn))
 //@   ensures rev.ff: imp(itrev && len(itseek) == len(prefix) + 1 && itseek[0:len(prefix)] == bytes(prefix) && itseek[len(prefix)] == 255, ok == (0 <= itpos && itpos < itn))
 //@   ensures rev.same: imp(itrev && itseek == bytes(prefix) && ok, skLen(itpos) == len(prefix))
@@ -93,3 +93,29 @@ package deps
 //@ trusted func builtin.closeQueued(c chan struct{})
 //@   modifies ghost.chclosed
 //@   ensures chclosed == store(old(chclosed), ref(c), true)
+//@
+//@ # ---- DropPrefix and the pieces RebuildIndexes uses (assumed, T5) ----
+//@ # kpre(p, k): the key with identity k has the byte prefix whose identity is p. ndrop counts DropPrefix calls.
+//@ uninterpreted func kpre(p int, k int) bool
+//@ ghostvar ndrop int
+//@ trusted func (db *badger.DB) DropPrefix(prefixes [][]byte) (err error)
+//@   modifies ghost.kvhas, ghost.ndrop
+//@   ensures count: ndrop == old(ndrop) + 1
+//@   ensures dropped: imp(isNil(err) && len(prefixes) == 1, forallint(k, kvhas[k] == (old(kvhas)[k] && !kpre(keyid(bytes(prefixes[0])), k))))
+//@   ensures failed: imp(!isNil(err), forallint(k, imp(kvhas[k], old(kvhas)[k])))
+//@ trusted func reflect.TypeOf(i interface{}) (t reflect.Type)
+//@   ensures true
+//@ trusted func reflect.New(t reflect.Type) (v reflect.Value)
+//@   modifies alloc
+//@ trusted func (v reflect.Value) Interface() (i interface{})
+//@   ensures true
+//@ trusted func (v reflect.Value) Elem() (e reflect.Value)
+//@   ensures true
+//@ trusted func (item *badger.Item) KeyCopy(dst []byte) (k []byte)
+//@   modifies alloc, bytes
+//@   ensures ref(k) != 0 && bytes(k) == strOf(skArr(itpos), skLen(itpos)) && freshbytes(k)
+//@ trusted func (item *badger.Item) Value(fn func(val []byte) error) (err error)
+//@   applies fn
+//@ # json.Unmarshal into the object reflect.New has just allocated: nothing that existed before is written
+//@ trusted func json.UnmarshalFresh(data []byte, v interface{}) (err error)
+//@   modifies alloc
